@@ -3,9 +3,27 @@
    (shipped_is_current_X / shipped_is_stale_X_refuted, generated_is_schema_of_X) cannot live here
    because Gen/ is rebuilt on every run: they are in Properties/C15Schemas.v.in, instantiated as
    Gen/C15Schemas.v and compiled by checks/c15.py on every run (and counted as obligations there).
-   NOT proved (stated honestly): valid_encode and decode_of_valid for *all* values; they are evaluated by
-   computation on every generated case of every run (K-schema), which is a test. *)
-From VV.SERDE Require Import Serde Config CorrSchema SchemaOfTypes SchemaP.
+   NOT proved (stated honestly): decode_of_valid (bounded j -> valid j -> the parser accepts j) for all
+   documents; it is evaluated by computation on every generated / mutated document of every run
+   (K-schema + K-serde), which is a test. *)
+From VV.SERDE Require Import Serde Config CorrSchema SchemaOfTypes SchemaP ValidEncode.
+
+(* every document the serialisers produce validates against the schema derived from its type
+   (schema_of_X = the regenerated schema, checked per run by generated_is_schema_of_X) *)
+Theorem C15_valid_encode_plan : forall p, im_plan p = true -> valid schema_of_migration (encode_plan p) = Some true.
+Proof. exact valid_encode_plan. Qed.
+Print Assumptions C15_valid_encode_plan.
+Check C15_valid_encode_plan : forall p, im_plan p = true -> valid schema_of_migration (encode_plan p) = Some true.
+
+Theorem C15_valid_encode_table : forall t, im_table t = true -> valid schema_of_model (encode_table t) = Some true.
+Proof. exact valid_encode_table. Qed.
+Print Assumptions C15_valid_encode_table.
+Check C15_valid_encode_table : forall t, im_table t = true -> valid schema_of_model (encode_table t) = Some true.
+
+Theorem C15_valid_encode_config : forall c, valid schema_of_config (encode_config c) = Some true.
+Proof. exact valid_encode_config. Qed.
+Print Assumptions C15_valid_encode_config.
+Check C15_valid_encode_config : forall c, valid schema_of_config (encode_config c) = Some true.
 
 (* `bounded` cannot be dropped: schema-valid documents outside it are rejected by the parser *)
 Theorem C15_decode_of_valid_refuted :
